@@ -7,7 +7,11 @@
 #ifdef SPEC_CONTRACTS
 unsigned int *REP;              /* ghost: representative of each element */
 unsigned long *OLD;             /* ghost: entry values before the call */
+#ifdef GN_FIXED
+#define GN ((unsigned long)GN_FIXED)   /* bounded falsification run: small fixed size, quantifiers expand on SAT */
+#else
 unsigned long GN;               /* ghost: number of elements */
+#endif
 #define D_(i) (self->mData._data[i]._v)
 #define PAR_(i) ((unsigned int)D_(i))
 #define RANK_(i) (((unsigned int)(D_(i) >> 32)) & 2147483647u)
@@ -25,11 +29,30 @@ unsigned long GN;               /* ghost: number of elements */
                    NEWREP(i) < GN && PAR_(NEWREP(i)) == NEWREP(i) && NEWREP(PAR_(i)) == NEWREP(i) && (PAR_(i) == (i) ? NEWREP(i) == (i) : 1))
 #define INV2_ALL __CPROVER_forall { unsigned long qm; (qm < GN) ==> INV2_AT(qm) }
 unsigned int ghost_ra, ghost_rb, ghost_r;
+/* findImpl's contract, proved by job findImpl on the real body; jobs find/same/unite use it at the call sites
+ * (assume-guarantee: precondition asserted, array havocked, postcondition assumed) */
+struct DisjointSets;
+unsigned int stub_findImpl(struct DisjointSets* self, unsigned int id);
+#endif
+#ifdef SPEC_HARNESS
+unsigned int stub_findImpl(struct DisjointSets* self, unsigned int id) {
+  __CPROVER_assert(id < GN, "findImpl precondition: id is an element");
+  __CPROVER_assert(INV_ALL, "findImpl precondition: representation invariant");
+  unsigned long *snap = malloc(self->mData._size * sizeof(unsigned long));
+  __CPROVER_assume(snap != 0);
+  __CPROVER_assume(__CPROVER_forall { unsigned long qs; (qs < GN) ==> snap[qs] == D_(qs) });
+  __CPROVER_havoc_object(self->mData._data);
+  __CPROVER_assume(INV_ALL);
+  __CPROVER_assume(__CPROVER_forall { unsigned long qt; (qt < GN) ==> ((D_(qt) >> 32) == (snap[qt] >> 32) && ((PAR_(qt) == qt) == ((unsigned int)snap[qt] == qt))) });
+  return REP[id];
+}
 #endif
 #ifdef SPEC_HARNESS
 static void dsu_setup(struct DisjointSets* self) {
+#ifndef GN_FIXED
   GN = nondet_ulong();
   __CPROVER_assume(GN >= 1 && GN <= 4294967295ul);     /* constructor asserts size <= UINT32_MAX */
+#endif
   self->mData._size = GN; self->mData._cap = GN;
   self->mData._data = malloc(self->mData._size * sizeof(struct std_atomic_unsigned_long));
   REP = malloc(self->mData._size * sizeof(unsigned int));
